@@ -11,6 +11,7 @@ CLAIMED = {
     "C10": (
         ["PageStore", "MC_PageStore", "Gen_PageStore", "Trace_PageStore"],
         "TLA+ state machine of the page store (rows, pending/committed, get_page memo) checked by TLC; "
+        "the add/lookup histories of the repository's own test-suite (recorded per context) validated by Trace_PageStore; "
         "TLC-generated add/redirect/commit histories with reference lookup tables replayed into a real Wtp+SQLite file; "
         "recorded random histories validated by TLC trace spec",
         "Bounded-exhaustive model checking of the store design (read-side normalisation == reference on every reachable store; memo coherence; "
@@ -29,7 +30,8 @@ CLAIMED = {
         "DESIGN.md §5 C04",
     ),
     "C16": (
-        ["Expander", "Gen_Expander", "Session", "MC_Session", "Gen_Session", "Trace_Session"],
+        ["Expander", "Gen_Expander", "Session", "MC_Session", "Gen_Session", "Trace_Session", "Trace_SuiteStack"],
+        "per-context call traces recorded from the repository's own test-suite (pytest plugin wrapping the public Wtp methods, one event per call at its return) validated by the trace spec Trace_SuiteStack; "
         "TLA+ transcription of expand_recurse/expand_args/expand_parserfn/call_lua_sandbox with every expand_stack push/pop site explicit (state-threading twin); "
         "TLC checks StackRestored on every (page, library, 16 option combinations); each case replayed on the real code incl. 300 repeated calls; push/pop event traces compared; "
         "plus the per-page session state machine (Session.tla: start_page/start_section/start_subsection/messages/expand/parse/to_return as actions) model-checked, its behaviours replayed on one real context and recorded random sessions validated by TLC",
@@ -115,7 +117,8 @@ CLAIMED = {
         "DESIGN.md §5 C09",
     ),
     "C05": (
-        ["Expander", "Gen_Expander", "Expr"],
+        ["Expander", "Gen_Expander", "Gen_ExpanderDepth", "Expr", "ParserFns"],
+        "nesting ladders (what is nested x how deep x split over page and template bodies) generated from Gen_ExpanderDepth with the depth limit stated for every kind of nesting, run on the real expand() under a CPU bound; "
         "(a) expander twin evaluated by TLC on cyclic libraries / deep nests (termination, work bound, cuts reported) and replayed on the real expand() under a wall-clock bound; random cyclic libraries validated by the twin from a file; "
         "(b) TLA+ model of #expr tokenizer/ladder with explicit error outcomes and parser-function argument classes, every TLC-enumerated call run through the real expand()",
         "Bounded-exhaustive termination/in-band reporting over cyclic template libraries, nests to depth 100, #expr token sequences and every parser function x argument classes.",
@@ -151,6 +154,7 @@ CLAIMED = {
     ),
     "C01": (
         ["Parser", "WikiTree", "Gen_Parser", "Trace_WikiTree"],
+        "the trees the repository's own test-suite obtains (recorded by a pytest plugin) and every text it parses validated by Trace_WikiTree; "
         "TLA+ transcription of the token-driven push-down parser (one operator per handler, token_iter incl. the apostrophe state machine) and of the tree well-formedness rules; TLC checks dispatch totality, WellFormed and clean final state on every chunk sequence of six universes; "
         "every sequence parsed by the real parse() in several spellings and three modes; random soups / grammar documents / mutated real pages / nesting ladders dumped structurally and validated by TLC against the same WellFormed operator",
         "Bounded-exhaustive chunk sequences (70 k quick / 550 k thorough) on model and code, plus TLC validation of the distinct tree shapes of ~20 k (quick) / 500 k (thorough) random soups, grammar documents and page mutations.",
@@ -174,7 +178,8 @@ CLAIMED = {
         "DESIGN.md §5 C03, notes/C03.md",
     ),
     "C19": (
-        ["Unparse", "MC_Unparse", "Gen_Unparse", "Trace_Unparse"],
+        ["Unparse", "MC_Unparse", "Gen_Unparse", "Trace_Unparse", "Render", "MC_Render", "Gen_Render", "Trace_Render"],
+        "the round trips of the texts parsed by the repository's own test-suite validated by Trace_Unparse (suite engine); Render.tla (node_to_html / node_to_text / node_handler_fn by composition of Unparse and Transclusion) as a DRIFT-only engine; "
         "TLA+ transcription of to_wikitext / to_attrs per node kind, a document grammar enumerated by TLC, and the Equiv operator (whitespace at block boundaries); MC round trip inside the model; "
         "for every generated document the real chain parse -> node_to_wikitext -> parse -> node_to_wikitext -> parse is run and the tree triples validated by TLC (Equiv, fixed point); subtrees / child lists passed directly; literal '[[' text",
         "Bounded-exhaustive document grammar to depth 3 (quick) / 4 (thorough), two spellings, ~50 k (quick) / 300 k (thorough) evaluated texts and directly passed values.",
